@@ -54,4 +54,20 @@ def sweep_inexact_crossing(m):
     return False
 
 
-PREDS = {f.__name__: f for f in [mls_even_shared_endpoint, sweep_inexact_crossing]}
+def gc_all_members_empty(m):
+    """HasDimensions::is_empty through the Geometry enum answers false for a collection that has members, all of them
+    empty: the delegating macro calls `g.is_empty()`, which resolves to geo-types' inherent GeometryCollection::is_empty
+    (no members) instead of the trait method (no coordinates)."""
+    c = m.get("case", {})
+    g = c.get("g", {})
+
+    def has_gc_of_empties(g):
+        if g.get("t") != "GeometryCollection":
+            return False
+        return len(g["gs"]) > 0
+
+    return (m.get("sub") == "dimensions_geometry_enum" and c.get("empty") is True and has_gc_of_empties(g)
+            and "false" in m.get("detail", {}).get("got", ""))
+
+
+PREDS = {f.__name__: f for f in [mls_even_shared_endpoint, sweep_inexact_crossing, gc_all_members_empty]}
